@@ -575,7 +575,7 @@ int runCheck(const Opts &o, Check<Inst> &c) {
   for (int k = 0; k < n; ++k) spawn(k);
   int live = n;
   int crashes = 0, hangs = 0, confirmedHangs = 0, slowInstances = 0;
-  const int maxHangs = 6;
+  const int maxHangs = 3;
   while (live > 0) {
     bool progressed = false;
     for (int k = 0; k < n; ++k) {
@@ -611,21 +611,18 @@ int runCheck(const Opts &o, Check<Inst> &c) {
         std::string cls;
         std::string msg;
         if (hung) {
-          // a timed-out instance is re-run alone with ten times the limit before it is called a hang; once one instance has
-          // been confirmed that way, further time-outs of this pass are taken as hangs directly, and after maxHangs the pass stops
-          if (confirmedHangs < 1) {
-            auto again = evalIsolated(o, c, inst, c.instanceTimeout * 10, "hang" + std::to_string(k));
-            bool stillHangs = false;
-            for (auto &v : again) {
-              if (v.cls == "hang") { ++confirmedHangs; stillHangs = true; }
-              crashViol.push_back(v);
-            }
-            if (stillHangs) ++hangs;
-            else if (++slowInstances > 64) { ++hangs; }  // merely slow instances: tolerated, but not without bound
-          } else {
-            ++hangs;
-            crashViol.push_back({"hang", c.encode(inst), "did not finish within " + std::to_string(c.instanceTimeout) + " s (earlier time-outs of this pass were confirmed with a tenfold limit)"});
+          // every timed-out instance is re-run alone with a much longer limit (ten times, at most five minutes more) before it is
+          // called a hang: an instance that finishes there was merely slow (16 workers, sanitizer) and is only counted; after
+          // maxHangs confirmed hangs the pass stops (what was covered so far is reported, exhaustive = false)
+          double longer = std::min(c.instanceTimeout * 10.0, c.instanceTimeout + 300.0);
+          auto again = evalIsolated(o, c, inst, longer, "hang" + std::to_string(k));
+          bool stillHangs = false;
+          for (auto &v : again) {
+            if (v.cls == "hang") { ++confirmedHangs; stillHangs = true; }
+            crashViol.push_back(v);
           }
+          if (stillHangs) ++hangs;
+          else if (++slowInstances > 64) { ++hangs; }  // merely slow instances: tolerated, but not without bound
         } else {
           cls = classifyCrash(err, status);
           crashViol.push_back({cls, c.encode(inst), err.substr(0, 1500)});
